@@ -33,6 +33,25 @@ def err_blocks(b):
     return out
 
 
+def deep_sources(F, body, op):
+    """provenance of an operand, resolving variables captured by a closure in the enclosing body"""
+    s = Slice(F, body, through_calls=True).operand(op)
+    srcs = set(s.sources)
+    pb = F.bodies.get(body.parent) if body.parent else None
+    if pb is not None:
+        for x in list(s.sources):
+            if x[0] != "upvar":
+                continue
+            for blk in pb.blocks:
+                for st in blk["st"]:
+                    rv = st.get("rv") or {}
+                    if rv.get("k") == "agg" and rv.get("closure") == body.id:
+                        for fs, o in zip(rv.get("fs", []), rv["ops"]):
+                            if fs.lstrip("*&") == x[1].lstrip("*&"):
+                                srcs |= Slice(F, pb, through_calls=True).operand(o).sources
+    return srcs
+
+
 def payload_variants(F):
     for p, a in F.adts.items():
         if ends(p, "entry_payload::Payload"):
@@ -56,6 +75,13 @@ def per_variant_push(ctx, F, rule, fn, b, nxt, elem_local, is_pushed, what, hist
     """every Payload variant arm reaches a push (satisfying is_pushed) before the next iteration / Ok return"""
     conds = edge_conditions(b)
     pushes = [x for x, t in calls_matching(b, r"Vec::push$") if elem_local in Slice(F, b).operand(t["args"][1]).seen and is_pushed(t)]
+    # extracted helper: a workspace function that is handed the element and pushes it
+    for x, t in b.calls():
+        k = callee_key(t) or ""
+        takes_vec = any("p" in a and re.match(r"^&mut alloc::vec::Vec<", b.local_ty(a["p"]["l"])) for a in t["args"])
+        if k.startswith("d_engine_") and takes_vec and any(elem_local in Slice(F, b).operand(a).seen for a in t["args"]) \
+                and F.call_reaches(t, lambda c: strip_generics(c).endswith("Vec::push"), 3):
+            pushes.append(x)
     errs = err_blocks(b)
     variants = payload_variants(F)
     ctx.floor(rule, len(variants), 3, "variants of entry_payload::Payload")
@@ -105,7 +131,7 @@ def run(ctx):
         reo = sorted(strip_generics(y[1]).split("::")[-1] for y in s.sources if y[0] == "call" and REORDER.search(strip_generics(y[1])))
         ctx.check("C06-a", "%s#log-order" % fkey(pb), not reo, "entries are iterated as returned by get_entries_range",
                   "the fetched entries pass through %s before dispatch: indexes are applied out of order or skipped" % reo, loc(b, it))
-        per_variant_push(ctx, F, "C06-a", pb, b, nxt, el, lambda t: True, "pushed into the batch for the SM worker",
+        per_variant_push(ctx, F, "C06-a", pb, b, nxt, el, lambda t: True, "a push of the entry into the batch for the SM worker",
                          "a committed Payload::%s entry is never handed to the worker, last_applied stops below it (ReadIndex / wait_applied hang) and later entries are applied over a gap")
     sb = F.main_body(ssw)
     for (x, t) in sm_send(sb):
@@ -154,15 +180,19 @@ def run(ctx):
     filters = []
     for r in consumer:
         for x in F.group_bodies(r):
-            for c in edge_conditions(x).values():
-                if c.kind != "cmp":
-                    continue
-                sa, sb_ = Slice(F, x).operand(c.a), Slice(F, x).operand(c.b)
-                for (i, j) in ((sa, sb_), (sb_, sa)):
-                    idx = i.has_field("common::Entry", "index") or i.has_field("command::ApplyEntry", "index")
-                    la = j.has_field(DSMH, "last_applied") or j.has_call(r"::last_applied$") or any(y[0] == "field" and y[2] == "last_applied_index" for y in j.sources)
-                    if idx and la and c.op in ("Gt", "Ge", "Lt", "Le"):
-                        filters.append((x, c.edge["src"]))
+            for bi, blk in enumerate(x.blocks):
+                for st in blk["st"]:
+                    rv = st.get("rv") or {}
+                    if rv.get("k") != "bin" or rv.get("op") not in ("Gt", "Ge", "Lt", "Le") or blk.get("cleanup"):
+                        continue
+                    sa, sb_ = deep_sources(F, x, rv["a"]), deep_sources(F, x, rv["b"])
+                    for (i, j) in ((sa, sb_), (sb_, sa)):
+                        idx = any(y[0] == "field" and y[2] == "index" and (ends(y[1], "common::Entry") or ends(y[1], "command::ApplyEntry")) for y in i)
+                        la = any((y[0] == "field" and ((ends(y[1], DSMH) and y[2] == "last_applied") or y[2] == "last_applied_index"))
+                                 or (y[0] == "call" and strip_generics(y[1]).endswith("::last_applied")) for y in j)
+                        if idx and la:
+                            filters.append((x, bi))
+    filter_roots = set(F.root_of[x.id] for (x, _bi) in filters)
     at_most_once = (not undone) or bool(filters)
     wit = undone[0][1] if undone else None
     ctx.check("C06-b", "%s#dispatch-at-most-once" % fkey(pb), at_most_once,
@@ -216,7 +246,7 @@ def run(ctx):
         def is_apply_entry(t):
             s = Slice(F, dec).operand(t["args"][1])
             return any(y[0] == "agg" and ends(y[1], "command::ApplyEntry") for y in s.sources)
-        pushes = per_variant_push(ctx, F, "C06-d", dec, dec, nxt, el, is_apply_entry, "one ApplyEntry pushed",
+        pushes = per_variant_push(ctx, F, "C06-d", dec, dec, nxt, el, is_apply_entry, "a push of its ApplyEntry",
                                   "a committed Payload::%s entry yields no ApplyEntry: the state machine never sees its index and last_applied jumps over it")
         for p in pushes:
             again = must_pass(dec, p, [q for q in pushes], [nxt])
@@ -241,6 +271,8 @@ def run(ctx):
         for (x, t) in cs:
             s = Slice(F, hb).operand(t["args"][argi])
             reo = [y[1] for y in s.sources if y[0] == "call" and REORDER.search(strip_generics(y[1]))]
+            if F.root_of[hb.id] in filter_roots:  # the already-applied filter of C06-b is the one permitted drop
+                reo = [y for y in reo if not re.search(r"::(filter|retain|skip_while)$", strip_generics(y))]
             ctx.check("C06-e", "%s#%s" % (fkey(F.root_of[hb.id]), what.split(" -> ")[1]), src_ok(s) and not reo, "passes the received batch on unchanged",
                       "%s does not pass the received batch on unchanged (%s): entries are dropped or reordered before the apply" % (what, reo or sorted(s.sources, key=str)[:5]), loc(hb, x))
     wr = ctx.anchor(F.method, "StateMachineWorker", "run")
